@@ -129,6 +129,7 @@ package board
 //@
 //@ func (*Board).MakeMove
 //@   props C02 C04
+//@   timeout 600
 //@   opaque zplace epPre epAns
 //@   ghost p0 = pos(b)
 //@   requires repOK(b) && lightPos(pos(b)) && movable(pos(b), m) && hashOK(b)
@@ -137,6 +138,11 @@ package board
 //@   use repInstance(b, m.To())
 //@   use repInstance(b, Square(capSq(pos(b), uint16(m))))
 //@   use repInstance(b, b.CaptureSq(m))
+//@   # stepping stones for the hash clause: the side, rights and e.p. components of the key change by
+//@   # exactly the terms the code XORs in (state-only facts, proved first, then available to `hash`)
+//@   assert [hstm]    ite(b.STM == 1, stmRand, 0) == ite(old(b.STM) == 1, stmRand, 0) ^ stmRand
+//@   assert [hrights] zrights(b.Castles) == zrights(old(b.Castles)) ^ zrights(b.Castles ^ old(b.Castles))
+//@   assert [hmask]   zrights(b.Castles ^ old(b.Castles)) == (castlingRand[0] & hashEnable[((b.Castles ^ old(b.Castles)) >> 0) & 1]) ^ (castlingRand[1] & hashEnable[((b.Castles ^ old(b.Castles)) >> 1) & 1]) ^ (castlingRand[2] & hashEnable[((b.Castles ^ old(b.Castles)) >> 2) & 1]) ^ (castlingRand[3] & hashEnable[((b.Castles ^ old(b.Castles)) >> 3) & 1])
 //@   ensures [placement] samePlacement(pos(b), succ(p0, m))
 //@   ensures [stm]       stm(pos(b)) == stm(succ(p0, m))
 //@   ensures [castles]   cas(pos(b)) == cas(succ(p0, m))
@@ -144,8 +150,8 @@ package board
 //@   ensures [fiftyNoWrap] int64(b.FiftyCnt) == ite(pieceAt(p0, mvFrom(m)) == 1 || pieceAt(p0, capSq(p0, m)) != 0, 0, int64(old(b.FiftyCnt)) + 1)
 //@   ensures [fullmoves] full(pos(b)) == full(succ(p0, m))
 //@   ensures [ep]        implies(epPre(noClocks(p0), uint16(m)) && mvPromo(uint16(m)) == 0, uint8(b.EnPassant) == ite(isDouble(p0, uint16(m)) && epAns(noClocks(p0), uint16(m)), midSq(uint16(m)), 0))
-//@   ensures [rep*]       repOK(b)
-//@   ensures [hash*]      hashOK(b)
+//@   ensures [rep]       repOK(b)
+//@   ensures [hash]      hashOK(b)
 //@   ensures [history]   len(b.hashes) == old(len(b.hashes)) + 1 && implies(0 <= gi && gi < old(len(b.hashes)), b.hashes[gi] == old(b.hashes[gi]))
 //@   modifies b.*
 //@   nopanic
@@ -155,6 +161,20 @@ package board
 //@   hyp validPos(p) && pseudo(p, m)
 //@   concl [light]   lightPos(p)
 //@   concl [movable] movable(p, m)
+//@
+//@ # ---- legal moves preserve validity: chains of moves (game histories) stay inside the quantifier of
+//@ # ---- the per-move properties (C01, C02, C10 ...), by induction over the history
+//@ lemma validPreserved(p $Pos, m $Mv)
+//@   props C01 C02
+//@   timeout 600
+//@   split pieceAt(p, mvFrom(m)) in 1..6
+//@   hyp validPos(p) && legal(p, m)
+//@   concl [wf]     wfPos(succ(p, m))
+//@   concl [kings]  onehot(kingOf(succ(p, m), 0)) && onehot(kingOf(succ(p, m), 1))
+//@   concl [pawns]  pP(succ(p, m)) & (rank1 | rank8) == 0
+//@   concl [safe]   !inCheck(succ(p, m), other(stm(succ(p, m))))
+//@   concl [rights] rightsOK(succ(p, m))
+//@   concl [ep]     epOK(succ(p, m))
 //@
 //@ # ---- C05: the pseudo-legality test accepts exactly the rule-defined pseudo-legal encodings
 //@ func (*Board).IsPseudoLegal
